@@ -37,6 +37,7 @@ import (
 	"google.golang.org/protobuf/encoding/protowire"
 	"google.golang.org/protobuf/proto"
 	"google.golang.org/protobuf/reflect/protoreflect"
+	"google.golang.org/protobuf/types/known/anypb"
 	"verif/c19util"
 	"verif/core"
 )
@@ -115,6 +116,7 @@ type child struct {
 	pending  [][]byte // signed txs waiting for a batched ApplyBlock
 	pendingC []string
 	seenTx   map[string]bool // transactions already queued once (a block with a duplicate is refused as a whole)
+	sysTotals map[string]int
 	hangSec  int
 }
 
@@ -203,6 +205,15 @@ const sysLenVariants = 12
 
 // sysLenTotal is the number of (seed, length-delimited field, variant) triples of a target's corpus.
 func (c *child) sysLenTotal(target string) int {
+	if v, ok := c.sysTotals[target]; ok {
+		return v
+	}
+	v := c.sysLenTotalUncached(target)
+	c.sysTotals[target] = v
+	return v
+}
+
+func (c *child) sysLenTotalUncached(target string) int {
 	n := 0
 	for _, seed := range c.e.corpus[target] {
 		if tree, ok := c19util.ParseTree(seed, mdOf(c.targets[target].newMsg()), 0, false); ok {
@@ -259,15 +270,21 @@ func (c *child) genSysLen(target string, idx int) ([]byte, []string) {
 func (c *child) genInput(rng *rand.Rand, name string) ([]byte, []string) {
 	switch name {
 	case "fsm-message":
+		// a transaction whose Any payload carries hostile bytes for a registered message type, correctly signed: the payload is
+		// decoded and checked inside CheckTx (fsm/transaction.go CheckMessage), i.e. under ApplyBlock's recover point
 		n := c.e.msgNames[rng.Intn(len(c.e.msgNames))]
 		m := lib.RegisteredMessages[n].New()
 		c19util.Populate(rng, m.ProtoReflect(), 5, 0.5+rng.Float64()*0.5, c.e.anyPool())
-		bz := mb(m)
+		bz, ops := mb(m), []string{"random-instance"}
 		if rng.Intn(4) != 0 {
-			out, ops := c19util.MutateWire(rng, bz, mdOf(m), c.e.corpus["QuorumCertificate"][rng.Intn(len(c.e.corpus["QuorumCertificate"]))])
-			return append([]byte(n+"\x00"), out...), ops
+			bz, ops = c19util.MutateWire(rng, bz, mdOf(m), c.e.corpus["QuorumCertificate"][rng.Intn(len(c.e.corpus["QuorumCertificate"]))])
 		}
-		return append([]byte(n+"\x00"), bz...), []string{"random-instance"}
+		tx := &lib.Transaction{MessageType: n, Msg: &anypb.Any{TypeUrl: "type.googleapis.com/" + string(mdOf(m).FullName()), Value: bz},
+			CreatedHeight: 1, Time: 1 + uint64(rng.Intn(1<<30)), Fee: 1_000_000, NetworkId: envNetworkID, ChainId: envChainID}
+		if err := tx.Sign(c.e.keys[rng.Intn(len(c.e.keys))]); err != nil {
+			panic(err)
+		}
+		return mb(tx), ops
 	case "raw-field":
 		out, ops := c19util.MutateWire(rng, c.pick(rng, "Block"), mdOf(new(lib.Block)), c.pick(rng, "Transaction"))
 		return out, ops
@@ -518,22 +535,7 @@ func (c *child) exec(name string, data []byte) {
 	}
 	switch name {
 	case "fsm-message":
-		i := bytes.IndexByte(data, 0)
-		m := lib.RegisteredMessages[string(data[:i])].New()
-		var err lib.ErrorI
-		c.guard(name, "lib.Unmarshal(fsm message)", func() { err = lib.Unmarshal(data[i+1:], m) })
-		if err == nil {
-			c.counts["decoded_ok"]++
-			var chk lib.ErrorI
-			c.guard(name, "MessageI.Check:"+string(data[:i]), func() { chk = m.Check() })
-			if chk == nil { // fsm/transaction.go CheckTx: Recipient / authorized signers are taken only from messages that passed Check()
-				c.counts["fsm_messages_passed_check"]++
-				c.guard(name, "MessageI.Recipient", func() { _ = m.Recipient() })
-				c.guard(name, "fsm.GetAuthorizedSignersFor", func() { _, _ = e.sm.GetAuthorizedSignersFor(m) })
-			}
-		} else {
-			c.counts["decode_rejected"]++
-		}
+		checkTx(name, data)
 		return
 	case "raw-field":
 		c.guard(name, "codec.GetRawProtoField", func() { _, _ = codec.GetRawProtoField(data, 1) })
@@ -550,6 +552,7 @@ func (c *child) exec(name string, data []byte) {
 	case "signed-msg":
 		m := new(bft.Message)
 		if err := lib.Unmarshal(data, m); err == nil {
+			e.buildBFT()
 			c.guard(name, "bft.HandleMessage", func() {
 				if e.bft.HandleMessage(m) == nil {
 					c.counts["bft_messages_accepted"]++
@@ -604,6 +607,7 @@ func (c *child) exec(name string, data []byte) {
 			checkTx(name, raw)
 		}
 	case *bft.Message:
+		e.buildBFT() // fresh instance: the verdict for an input must not depend on what the shard fed before it
 		c.guard(name, "Message.SignBytes", func() { _ = x.SignBytes() })
 		c.guard(name, "bft.HandleMessage", func() {
 			if e.bft.HandleMessage(x) == nil {
@@ -611,6 +615,7 @@ func (c *child) exec(name string, data []byte) {
 			}
 		})
 	case *bft.DoubleSignEvidence:
+		e.buildBFT()
 		c.guard(name, "bft.ProcessDSE", func() { _, _ = e.bft.ProcessDSE(x) })
 		c.guard(name, "bft.AddDSE", func() { d := bft.NewDSE(); _ = e.bft.AddDSE(&d, x) })
 	case *p2p.Envelope:
@@ -675,7 +680,7 @@ func childMain(t *testing.T) {
 	nShards, _ := strconv.Atoi(os.Getenv("C19_NSHARDS"))
 	resumeAfter := os.Getenv("C19_RESUME_AFTER")
 	mode := os.Getenv("C19_CHILD")
-	c := &child{counts: map[string]int64{}, combos: map[string]bool{}, targets: map[string]target{}, hangSec: 30, seenTx: map[string]bool{}}
+	c := &child{counts: map[string]int64{}, combos: map[string]bool{}, targets: map[string]target{}, hangSec: 30, seenTx: map[string]bool{}, sysTotals: map[string]int{}}
 	if v, err := strconv.Atoi(os.Getenv("C19_HANG_SEC")); err == nil && v > 0 {
 		c.hangSec = v
 	}
@@ -757,12 +762,29 @@ func childMain(t *testing.T) {
 			c.curData, c.curOps = data, ops
 			c.curCase.Store(name)
 			c.logInput(name, data)
+			if st := os.Getenv("C19_SELFTEST"); st != "" { // harness self-test: simulate a fatal crash / a hang at one case
+				if st == "crash:"+name {
+					go func() { panic("C19 self-test: simulated fatal error") }()
+					time.Sleep(2 * time.Second)
+				}
+				if st == "hang:"+name {
+					c.curStart.Store(time.Now().UnixNano())
+					select {}
+				}
+			}
+			if c.counts["inputs_"+pe.target] == 0 && shard == 0 {
+				c.emit(childRec{T: "sample", Case: name, Target: pe.target, Ops: ops, Input: headHex(hex.EncodeToString(data), 160), At: strconv.Itoa(len(data))})
+			}
 			t0 := time.Now()
 			c.curStart.Store(t0.UnixNano())
 			c.exec(execTarget, data)
 			c.curStart.Store(0)
 			if debugTiming {
-				c.counts["dbg_ms_"+pe.target] += time.Since(t0).Microseconds()
+				el := time.Since(t0)
+				c.counts["dbg_ms_"+pe.target] += el.Microseconds()
+				if el > 300*time.Millisecond {
+					c.emit(childRec{T: "slow", Case: name, Msg: el.String(), Ops: ops, At: strconv.Itoa(len(data))})
+				}
 			}
 			c.counts["inputs_executed"]++
 			c.counts["inputs_"+pe.target]++
@@ -957,6 +979,10 @@ func absorb(run *core.Run, res childResult) {
 		switch r.T {
 		case "panic":
 			viol(run, panicSignature(r), "^"+regexp.QuoteMeta(r.Case)+"$", map[string]any{"input_hex": r.Input, "mutations": r.Ops, "panic": r.Msg, "stack": r.Stack, "called": r.Fn, "target": r.Target})
+		case "sample":
+			if r.Target == "QuorumCertificate" || r.Target == "bft.Message" {
+				run.Sample(map[string]any{"monitor": "decode", "case": r.Case, "mutations": r.Ops, "input_len": r.At, "input_hex_head": r.Input})
+			}
 		case "recovered":
 			run.Count("canopy_recovered_panics", 1)
 			run.Sample(map[string]any{"note": "panic recovered by canopy's own recover point (not a violation)", "case": r.Case, "fn": r.Fn, "log": firstLines(r.Msg, 14), "input_hex_head": headHex(r.Input, 300), "input_len": len(r.Input) / 2})
@@ -993,6 +1019,9 @@ func decodeChildren(run *core.Run) {
 	}
 	defer os.RemoveAll(dir)
 	nShards := core.Workers()
+	if cr := os.Getenv("VERIF_CASE"); cr != "" && !strings.Contains(cr, "dec/") {
+		nShards = 0 // replay of an in-process case (or of the size-cap cases): no decode shard can match
+	}
 	var wg sync.WaitGroup
 	for s := 0; s < nShards; s++ {
 		wg.Add(1)
@@ -1049,9 +1078,6 @@ func decodeChildren(run *core.Run) {
 	recoveredKinds.Range(func(k, v any) bool { rk[k.(string)] = v.(string); return true })
 	run.Extra("canopy_recovered_panic_kinds", rk)
 	run.Eval(int(run.Counter("dec_inputs_executed")))
-	if run.Counter("dec_inputs_executed") == 0 && os.Getenv("VERIF_CASE") == "" {
-		run.Inconclusive("the decode children executed no input")
-	}
 }
 
 func spawnSingle(dir string, _ int, caseName string, hangSec int) childResult {
@@ -1131,12 +1157,14 @@ func unknownFields(run *core.Run) {
 	for _, t := range decodeTargets() {
 		tg[t.name] = t
 	}
-	rounds := core.Pick(6, 200)
-	for _, name := range []string{"Block", "Transaction", "QuorumCertificate", "bft.Message", "BlockMessage", "TxMessage", "DoubleSignEvidence", "Envelope"} {
+	rounds := core.Pick(6, 40)
+	names := []string{"Block", "Transaction", "QuorumCertificate", "bft.Message", "BlockMessage", "TxMessage", "DoubleSignEvidence", "Envelope"}
+	core.Parallel(len(names), func(ti int) {
+		name := names[ti]
 		t := tg[name]
 		cname := "unknown/" + name
 		if !run.Want(cname) {
-			continue
+			return
 		}
 		rng := run.Rand(cname)
 		var seeds [][]byte
@@ -1201,5 +1229,5 @@ func unknownFields(run *core.Run) {
 			run.Extra("unknown_field_depths_"+name, sortedInts(depths))
 		}
 		run.Eval(1)
-	}
+	})
 }
